@@ -92,6 +92,17 @@ func (p *pipeline) executeStage(parentStageID string, stage stagepkg.Stage) {
 	stageID := uuid.New().String()
 	p.sm.executeStage(parentStageID, stageID, stage)
 
+	defer func() {
+		// panic when plan/execute(sync) the stage, need complete current stage with the error.
+		// if the panic is recovered by the task of parent stage(async), the parent stage is completed with the error,
+		// but current stage is pending forever, then the pipeline never completes.
+		if r := recover(); r != nil {
+			err := errorpkg.Error(r)
+			p.logger.Error("execute stage panic", logger.Error(err), logger.Stack())
+			p.sm.completeStage(stageID, err)
+		}
+	}()
+
 	stage.Execute(stage.Plan(), func() {
 		// after current stage execute completed, then plan next stages
 		nextStages := stage.NextStages()
